@@ -692,3 +692,63 @@ def audit_discharge(ctx, repo):
 
 
 ALL = [f12_set_order, audit_discharge, f13_ambient, tz_independence, local_state_cow, f11_compile_purity, lazy_independence, interning_order]
+
+
+# ---------------------------------------------------------------------------
+# F12k: sorting a set with a key that can tie leaves the tied elements in set order
+# ---------------------------------------------------------------------------
+F12K_AUDIT = {
+    ("varLib/avar/unbuild.py", "mappings_from_avar"): "a real tie (locations on the same axes with different values): the order of <mapping> elements in the designspace document this tool emits can vary with the hash seed; a font-to-designspace converter outside C16's saved-font clause (cross-reference, DESIGN §5)",
+}
+
+
+def sorted_key_ties(ctx, repo, scope=("ttLib/", "cffLib/", "subset/", "varLib/", "otlLib/", "feaLib/", "merge/", "colorLib/")):
+    from .setorder import _settypes_cache
+
+    ctx.rule("F12k", "sorted(<set>, key=K) is a deterministic order only when K cannot tie: K must be (or end in) the element itself; `key=len` or a projection alone leaves equal-key elements in the set's iteration order, which depends on the hash seed", floor=1)
+    n = 0
+    for rel in sorted(repo.rels()):
+        if not rel.startswith(tuple(scope)):
+            continue
+        mod = repo.mod(rel)
+        st = _settypes_cache(repo, mod)
+        for q, f in sorted(mod.funcs.items()):
+            clsq = f.cls.qual if f.cls is not None else None
+            loc = None
+            for c in walk_no_nested(f.node):
+                if not (isinstance(c, ast.Call) and isinstance(c.func, ast.Name) and c.func.id == "sorted" and c.args):
+                    continue
+                key = next((k.value for k in c.keywords if k.arg == "key"), None)
+                if key is None:
+                    continue
+                loc = loc or st.local_sets(f.node, clsq)
+                try:
+                    is_set = st.is_set(c.args[0], loc, clsq)
+                except Exception:
+                    is_set = False
+                if not is_set:
+                    continue
+                n += 1
+                ctx.consult(rel)
+                total = False
+                if isinstance(key, ast.Name):
+                    from ..core import inline_locals
+
+                    key = inline_locals(f.node, key)  # sortKey = font.getReverseGlyphMap().__getitem__
+                if (rel, q.split("#")[0]) in F12K_AUDIT:
+                    ctx.ob("F12k", f.where, f"{norm(c)[:70]} (audited: {F12K_AUDIT[(rel, q.split('#')[0])]})", True)
+                    continue
+                if isinstance(key, ast.Lambda) and len(key.args.args) == 1:
+                    p = key.args.args[0].arg
+                    b = key.body
+                    total = isinstance(b, ast.Name) and b.id == p or isinstance(b, ast.Tuple) and any(isinstance(e, ast.Name) and e.id == p for e in b.elts)
+                    # a projection to a unique identifier (glyph id through a map) is total as well
+                    total = total or (isinstance(b, ast.Subscript) and isinstance(b.slice, ast.Name) and b.slice.id == p) or (isinstance(b, ast.Call) and norm(b.func).endswith(("getGlyphID", ".index")))
+                elif isinstance(key, ast.Attribute) and key.attr in ("getGlyphID", "__getitem__", "index"):
+                    total = True
+                ctx.ob("F12k", f.where, f"{norm(c)[:90]}", total, "" if total else "elements with equal keys keep the set's (hash-seed dependent) order")
+    if n < 1:
+        raise AnalysisError("F12k: no sorted(<set>, key=...) site found (InsertionMorphAction.compileActions confirmed by hand)")
+
+
+ALL.append(sorted_key_ties)
